@@ -144,6 +144,18 @@ func NewEx(conf *Config, fset *token.FileSet, files ...*ast.File) (ret Result, e
 			onConflict(fset, item.c, firsts, i, at)
 		})
 	}
+	// A left-recursive rule recurses forever when it is matched. First panics with a
+	// RecursiveError when it meets a rule again before a token; the check above only
+	// reaches rules that start an option of a choice, so check every rule.
+	for _, f := range files {
+		for _, decl := range f.Decls {
+			if decl, ok := decl.(*ast.Rule); ok {
+				if v := rules[decl.Name.Name]; v.Elem != nil {
+					v.First(nil)
+				}
+			}
+		}
+	}
 	ret = Result{doc, rules}
 	return
 }
